@@ -250,7 +250,60 @@ def victims():
 
         return grad(loss)({"a": onp.array([0.5, 0.1, -0.3]), "b": (2.0,)})
 
-    return {"V1": V1, "V2": V2, "V3": V3}
+    def V4(caught):
+        # forward-over-forward with a failing inner jvp caught at depth 2
+        def outer(x):
+            def inner():
+                return make_jvp(lambda t: anp.sum(anp.exp(t * x) * up(t)))(x3)(onp.ones(3))[1]
+
+            if caught:
+                try:
+                    i = inner()
+                except Fault:
+                    i = inner()
+            else:
+                i = inner()
+            return i * anp.sum(x)
+
+        return make_jvp(outer)(onp.array([0.2, 0.1, -0.3]))(onp.array([1.0, 0.5, -1.0]))[1]
+
+    def V5(caught):
+        # jacobian (one vjp closure mapped over a basis) of a function with sparse + dense uses
+        from autograd import jacobian
+
+        def f(x):
+            def inner():
+                return anp.concatenate([x[onp.array([0, 0, 2])] * x[1:2], anp.cumsum(x)])
+
+            if caught:
+                try:
+                    return inner()
+                except Fault:
+                    return inner()
+            return inner()
+
+        return jacobian(f)(x3)
+
+    def V6(caught):
+        # checkpointed function differentiated twice
+        from autograd import checkpoint
+
+        net = checkpoint(lambda x: anp.sum(anp.tanh(up(x)) * x))
+
+        def gsum(x):
+            def inner():
+                return anp.sum(grad(net)(x) ** 2)
+
+            if caught:
+                try:
+                    return inner()
+                except Fault:
+                    return inner()
+            return inner()
+
+        return grad(gsum)(x3)
+
+    return {"V1": V1, "V2": V2, "V3": V3, "V4": V4, "V5": V5, "V6": V6}
 
 
 def run_line_faults(res, chk, idx, n, tier):
